@@ -41,6 +41,13 @@ Inductive case :=
          (strict : bool)                 (* false for the malformed stream (a parameter is missing) *)
          (g_ini g_tail : bool)           (* the harness' (Python) evaluation of the guards of the known findings
                                             initial-head-empty-or-jump / final-tail-empty, used by `classify` *)
+| CLazy (extra : list (var * Q)) (inner : case)
+                          (* malformed stream only (inner = a non-strict CPulse whose program EXISTS although a parameter is
+                             missing): the code is lazy where the denotation is strict - ConstantPT / FunctionPT never evaluate
+                             the value of a channel that an enclosing MappingPT drops, Spec.denote evaluates every value and
+                             gives None.  The program is compared with the denotation under the parameters completed by
+                             `extra` (missing names := 1; the program cannot depend on them), the symbolic observations with
+                             the model under the given, incomplete parameters as before *)
 | CExtern                 (* a case outside the Coq model (time dependent ArithmeticPT scalar): judged by the harness'
                             Python oracle (py_spec) only *)
 | CCrash.
@@ -64,13 +71,19 @@ Definition real_matches (r : real) (d : option pulse) : bool :=
   | _, _ => false
   end.
 
-Definition check_corr (cs : case) : bool :=
-  match cs with
-  | CCrash => false
-  | CExtern => true
-  | CPulse p rl sdur r obs padlen padded strict g_ini g_tail =>
-      let rho := env_of rl in
-      let den := denote p rho in
+(* the program of pad_to(target): the original pulse (denoted under rhoD) followed by the constant piece pad_to builds from
+   final_values and target - duration, both evaluated by the code under the GIVEN parameters rho.  For rho = rhoD this is
+   `denote (pad_to p target) rho` up to `++ []`. *)
+Definition pad_den (p : pt) (rho rhoD : env) (target : expr) : option pulse :=
+  match denote p rhoD, denote (Const (ESub target (duration_expr p)) (final_expr p)) rho with
+  | Some a, Some b => Some (a ++ b)
+  | _, _ => None
+  end.
+
+(* rho: the given parameters (symbolic side); rhoD: the parameters the denotation is evaluated under (= rho except for CLazy) *)
+Definition corr_pulse (rho rhoD : env) (p : pt) (sdur : option Q) (r : real) (obs : list chobs)
+                      (padlen : Q) (padded : real) (strict g_ini g_tail : bool) : bool :=
+      let den := denote p rhoD in
       (* every generated template is inside the domain of the theorems C07_duration / C07_integral / ..._guarded *)
       (negb strict || wf p)
       (* the classifier's guard predicates are the proven guards (Wf.v) on this case *)
@@ -98,7 +111,7 @@ Definition check_corr (cs : case) : bool :=
              && match padded with
                 | ROk pd =>
                     (* the model's pad_to denotes the original pulse followed by one constant piece *)
-                    match denote (pad_to p (EC (total pcs + padlen))) rho with
+                    match pad_den p rho rhoD (EC (total pcs + padlen)) with
                     | Some ppcs =>
                         Qeq_bool pd (total ppcs)
                         && forallb (fun o => match p_end ppcs (co_chan o) with
@@ -107,23 +120,28 @@ Definition check_corr (cs : case) : bool :=
                                              end) obs
                     | None => false
                     end
-                | RErr => match denote (pad_to p (EC (total pcs + padlen))) rho with None => true | Some _ => false end
+                | RErr => match pad_den p rho rhoD (EC (total pcs + padlen)) with None => true | Some _ => false end
                 | RNone => false
                 end
          | _, _ => true
-         end
+         end.
+
+Definition check_corr (cs : case) : bool :=
+  match cs with
+  | CCrash => false
+  | CExtern => true
+  | CPulse p rl sdur r obs padlen padded strict g_ini g_tail =>
+      corr_pulse (env_of rl) (env_of rl) p sdur r obs padlen padded strict g_ini g_tail
+  | CLazy extra (CPulse p rl sdur (ROk dur) obs padlen padded false g_ini g_tail) =>
+      corr_pulse (env_of rl) (env_of (rl ++ extra)) p sdur (ROk dur) obs padlen padded false g_ini g_tail
+  | CLazy _ _ => false
   end.
 
 (* the property on the implementation's observations.  Independence (round-5 audit): no function of Model.v is used except
    `env_of` (parameter list -> environment); integral / initial value / padded region / durations compare two observations
    of the implementation; only the voltage the template SPECIFIES at its end comes from Spec.denote / Spec.p_end (Spec.v
    shares with Model.v the syntax, `eval`, the dictionary helpers, `channels` and `scalar_as_dict`, nothing of `quant`). *)
-Definition check_spec (cs : case) : bool :=
-  match cs with
-  | CCrash => false
-  | CExtern => true
-  | CPulse p rl sdur r obs padlen padded strict _ _ =>
-      let rho := env_of rl in
+Definition spec_pulse (rhoD : env) (p : pt) (sdur : option Q) (r : real) (obs : list chobs) (padlen : Q) (padded : real) : bool :=
       match r with
       | RErr => true
       | RNone =>
@@ -135,7 +153,7 @@ Definition check_spec (cs : case) : bool :=
                         oq_eqb (co_sint o) (Some (co_rint o))
                         && oq_eqb (co_sini o) (Some (co_r0 o))
                         && (* the voltage the template specifies at its end (Spec.p_end of the denoted pulse) *)
-                           match denote p rho with
+                           match denote p rhoD with
                            | Some pcs => oq_eqb (co_sfin o) (p_end pcs (co_chan o))
                            | None => false
                            end) obs
@@ -148,5 +166,16 @@ Definition check_spec (cs : case) : bool :=
                                       end) obs
              | _ => false
              end
-      end
+      end.
+
+(* CLazy: the only clause that consults the denotation (the specified end voltage) does so under the completed parameters;
+   under the incomplete ones the denotation is None and the clause could only fail *)
+Definition check_spec (cs : case) : bool :=
+  match cs with
+  | CCrash => false
+  | CExtern => true
+  | CPulse p rl sdur r obs padlen padded strict _ _ => spec_pulse (env_of rl) p sdur r obs padlen padded
+  | CLazy extra (CPulse p rl sdur (ROk dur) obs padlen padded false _ _) =>
+      spec_pulse (env_of (rl ++ extra)) p sdur (ROk dur) obs padlen padded
+  | CLazy _ _ => false
   end.
